@@ -71,12 +71,92 @@ Proof.
   rewrite (read_exact_n 1 [ver_byte v]) by reflexivity. cbn [tzbind].
   assert (Ev : (if ver_byte v =? 0 then TzOk V1 else if ver_byte v =? 50 then TzOk V2 else if ver_byte v =? 51 then TzOk V3 else TzErr) = TzOk v) by (destruct v; reflexivity).
   rewrite Ev. cbn [tzbind]. rewrite (read_exact_n 15 (repeat 0 15)) by reflexivity. cbn [tzbind].
-  rewrite !(read_exact_n 4 (be_enc 4 _)) by (rewrite be_enc_length; reflexivity). cbn [tzbind].
-  rewrite (read_exact_n 4 (be_enc 4 isut)) by (rewrite be_enc_length; reflexivity). cbn [tzbind].
-  rewrite (read_exact_n 4 (be_enc 4 isstd)) by (rewrite be_enc_length; reflexivity). cbn [tzbind].
-  rewrite (read_exact_n 4 (be_enc 4 leap)) by (rewrite be_enc_length; reflexivity). cbn [tzbind].
-  rewrite (read_exact_n 4 (be_enc 4 tcnt)) by (rewrite be_enc_length; reflexivity). cbn [tzbind].
-  rewrite (read_exact_n 4 (be_enc 4 ycnt)) by (rewrite be_enc_length; reflexivity). cbn [tzbind].
+  assert (R4 : forall x r, read_exact 4 (be_enc 4 x ++ r) = TzOk (be_enc 4 x, r)) by (intros; apply read_exact_n; rewrite be_enc_length; reflexivity).
+  rewrite R4. cbn [tzbind]. rewrite R4. cbn [tzbind]. rewrite R4. cbn [tzbind]. rewrite R4. cbn [tzbind]. rewrite R4. cbn [tzbind].
   assert (E6 : read_exact 4 (be_enc 4 ccnt ++ rest) = TzOk (be_enc 4 ccnt, rest)) by (apply read_exact_n; rewrite be_enc_length; reflexivity).
   rewrite E6. cbn [tzbind]. rewrite !dec_u32 by assumption. reflexivity.
 Qed.
+
+(* ---------- the 64-bit data block ---------- *)
+Definition enc_ltype (u : Z) : bytes := enc_i32 u ++ [0; 0].      (* utoff, isdst, designation index *)
+Definition enc_block64 (trans : list (Z * Z)) (types : list Z) (chars : bytes) : bytes :=
+  concat (map (fun tr => enc_i64 (fst tr)) trans) ++ map snd trans ++ concat (map enc_ltype types) ++ chars.
+
+Lemma enc_i64_len t : length (enc_i64 t) = 8%nat. Proof. apply be_enc_length. Qed.
+Lemma enc_ltype_len u : length (enc_ltype u) = 6%nat. Proof. unfold enc_ltype, enc_i32. rewrite app_length, be_enc_length. reflexivity. Qed.
+Lemma forall_map_len {A} (f : A -> bytes) k l : (forall x, length (f x) = k) -> Forall (fun r => length r = k) (map f l).
+Proof. intros H. induction l; cbn [map]; constructor; auto. Qed.
+
+Lemma parse_block_enc v trans types chars rest : v <> V1 ->
+  parse_data_block (enc_block64 trans types chars ++ rest)
+    (mkHeader v 0 0 0 (Z.of_nat (length trans)) (Z.of_nat (length types)) (Z.of_nat (length chars))) v
+  = TzOk (mkBlock 8 (concat (map (fun tr => enc_i64 (fst tr)) trans)) (map snd trans) (concat (map enc_ltype types)), rest).
+Proof.
+  intros Hv. unfold parse_data_block, enc_block64. cbn [h_trans h_types h_chars h_leap h_isstd h_isut].
+  assert (Ets : (match v with V1 => 4 | _ => 8 end) = 8) by (destruct v; [contradiction | reflexivity | reflexivity]). rewrite Ets.
+  rewrite <- !app_assoc.
+  rewrite (read_exact_n (Z.of_nat (length trans) * 8)).
+  2:{ rewrite (concat_length_const 8) by (apply forall_map_len; intros; apply enc_i64_len). rewrite map_length. lia. }
+  cbn [tzbind]. rewrite (read_exact_n (Z.of_nat (length trans))) by (rewrite map_length; reflexivity). cbn [tzbind].
+  rewrite (read_exact_n (Z.of_nat (length types) * 6)).
+  2:{ rewrite (concat_length_const 6) by (apply forall_map_len; intros; apply enc_ltype_len). rewrite map_length. lia. }
+  cbn [tzbind]. rewrite (read_exact_n (Z.of_nat (length chars)) chars rest) by reflexivity. cbn [tzbind].
+  change (0 * (8 + 4)) with 0.
+  assert (R0 : forall r, read_exact 0 r = TzOk ([], r)).
+  { intros r. unfold read_exact. destruct (Z.ltb_spec (Z.of_nat (length r)) 0); [lia|]. reflexivity. }
+  rewrite R0. cbn [tzbind]. rewrite R0. cbn [tzbind]. rewrite R0. cbn [tzbind]. reflexivity.
+Qed.
+
+Lemma zip_fst_snd {A B} (l : list (A * B)) : zip (map fst l) (map snd l) = l.
+Proof. induction l as [|[a b] l IH]; cbn [map zip fst snd]; [reflexivity|]. rewrite IH. reflexivity. Qed.
+
+(* ---------- a whole version 2 / version 3 file ---------- *)
+Definition enc_file (v : version) (trans : list (Z * Z)) (types : list Z) (chars footer : bytes) : bytes :=
+  enc_header v 0 0 0 0 0 0 ++
+  enc_header v 0 0 0 (Z.of_nat (length trans)) (Z.of_nat (length types)) (Z.of_nat (length chars)) ++
+  enc_block64 trans types chars ++ footer.
+
+Lemma from_tzif_encoded_aux v trans types chars footer : (v = V2 \/ v = V3) ->
+  Forall (fun tr => in_i64 (fst tr)) trans -> Forall in_i32 types ->
+  u32ok (Z.of_nat (length trans)) -> u32ok (Z.of_nat (length types)) -> u32ok (Z.of_nat (length chars)) ->
+  from_tzif (enc_file v trans types chars footer) =
+  (let! rule := from_tz_string footer (match v with V3 => true | _ => false end) in
+   if existsb (fun tr => Z.of_nat (length types) <=? snd tr) trans
+      || ((match types with [] => true | _ => false end) && (match rule with None => true | _ => false end))
+   then TzErr else TzOk (mkTz trans types rule)).
+Proof.
+  intros Hv Ht Hy U1 U2 U3. unfold from_tzif, enc_file.
+  assert (U0 : u32ok 0) by (unfold u32ok; lia).
+  assert (Hv1 : v <> V1) by (destruct Hv as [-> | ->]; discriminate).
+  assert (R0 : forall r, read_exact 0 r = TzOk ([], r)).
+  { intros r. unfold read_exact. destruct (Z.ltb_spec (Z.of_nat (length r)) 0); [lia|]. reflexivity. }
+  assert (Et : map be_i64 (chunks (Z.to_nat 8) (concat (map (fun tr => enc_i64 (fst tr)) trans)) (length (concat (map (fun tr => enc_i64 (fst tr)) trans)))) = map fst trans).
+  { rewrite chunks_concat; [| cbn; lia | apply forall_map_len; intros; apply enc_i64_len |].
+    - rewrite map_map. apply map_ext_in. intros tr Hin. apply dec_i64. rewrite Forall_forall in Ht. apply Ht, Hin.
+    - rewrite (concat_length_const 8) by (apply forall_map_len; intros; apply enc_i64_len). rewrite map_length. lia. }
+  assert (Ey : map (fun c => be_i32 (firstn 4 c)) (chunks 6 (concat (map enc_ltype types)) (length (concat (map enc_ltype types)))) = types).
+  { rewrite chunks_concat; [| lia | apply forall_map_len; intros; apply enc_ltype_len |].
+    - rewrite map_map. rewrite <- (map_id types) at 2. apply map_ext_in. intros u Hin. unfold enc_ltype.
+      rewrite firstn_app, (firstn_all2 (enc_i32 u)) by (unfold enc_i32; rewrite be_enc_length; lia).
+      unfold enc_i32 at 2. rewrite be_enc_length. cbn [Nat.sub firstn]. rewrite app_nil_r. apply dec_i32. rewrite Forall_forall in Hy. apply Hy, Hin.
+    - rewrite (concat_length_const 6) by (apply forall_map_len; intros; apply enc_ltype_len). rewrite map_length. lia. }
+  pose proof (parse_block_enc v trans types chars footer Hv1) as PB.
+  destruct Hv as [-> | ->];
+    (rewrite parse_header_enc by assumption; cbn [tzbind h_ver];
+     unfold parse_data_block at 1; cbn [h_trans h_types h_chars h_leap h_isstd h_isut]; change (0 * 4) with 0; change (0 * 6) with 0; change (0 * (4 + 4)) with 0;
+     do 7 (rewrite R0; cbn [tzbind]);
+     rewrite parse_header_enc by assumption; cbn [tzbind h_ver];
+     rewrite PB; cbn [tzbind b_time_size b_times b_ttypes b_ltypes h_ver];
+     change (fun c : bytes => be_i64 c) with be_i64;
+     rewrite Et, zip_fst_snd, Ey; reflexivity).
+Qed.
+
+Theorem from_tzif_encoded v trans types chars footer : v <> V1 ->
+  Forall (fun tr => in_i64 (fst tr)) trans -> Forall in_i32 types ->
+  u32ok (Z.of_nat (length trans)) -> u32ok (Z.of_nat (length types)) -> u32ok (Z.of_nat (length chars)) ->
+  from_tzif (enc_file v trans types chars footer) =
+  (let! rule := from_tz_string footer (match v with V3 => true | _ => false end) in
+   if existsb (fun tr => Z.of_nat (length types) <=? snd tr) trans
+      || ((match types with [] => true | _ => false end) && (match rule with None => true | _ => false end))
+   then TzErr else TzOk (mkTz trans types rule)).
+Proof. intros Hv. apply from_tzif_encoded_aux. destruct v; [contradiction | left | right]; reflexivity. Qed.
